@@ -120,7 +120,7 @@ def run_case(ctx, case, model=True):
         # smallest non-empty set that would do
         for fc, cq in nonempty_sorted:
             if fc > Lf + slack:
-                if cq < c:
+                if cq < c and (exact or cq < c * (1 - frac(REL))):      # equal subset sums of decimals differ by an ulp
                     ctx.fail("predicate", "not-minimal", f"load {L}: picked {p} (cap {float(c)}) but a set of cap {float(cq)} would do", where)
                 break
         if prev_cap is not None and c < prev_cap[1] and not (nr or prev_cap[2]):
@@ -132,7 +132,7 @@ def run_case(ctx, case, model=True):
         for L, p, m in zip(loads, picks, out):
             m = tuple(bool(b) for b in m)
             if m != p:
-                if near(L) or (caps[m] == caps[p] and case["style"] == "decimal"):
+                if near(L) or (not exact and abs(caps[m] - caps[p]) <= frac(REL) * max(1, caps[p])):
                     ctx.count("accepted_near_threshold_difference")
                     continue
                 ctx.fail("correspondence", "pick", f"load {L}: model {m} impl {p}", where)
